@@ -74,7 +74,7 @@ def template(rng: random.Random, bits=64, label_count=8) -> str:
         return rng.choice([f"mov {seg}:{mem(rng, bits)},{rng.choice(full)}", f"mov {rng.choice(full)},{seg}:{mem(rng, bits)}",
                            "stos %al,%es:(%rdi)" if bits == 64 else "stos %al,%es:(%edi)",
                            "movsb %ds:(%rsi),%es:(%rdi)" if bits == 64 else "movsb %ds:(%esi),%es:(%edi)",
-                           f"add {seg}:0x28,{rng.choice(full)}"])
+                           f"add {seg}:0x28,{rng.choice(full)}", f"call *{seg}:{mem(rng, bits)}", f"jmp *{seg}:{mem(rng, bits)}"])
     if r < 0.70:
         return prefixed(rng, bits)
     if r < 0.74 and bits == 64:
